@@ -23,7 +23,7 @@ func init() {
 		ID:    "C05",
 		Title: "ORDER BY sorts, LIMIT/OFFSET return the exact window and never fail",
 		Level: "exploration",
-		Rule: "shapes also: DISTINCT * / UNION of whole rows under a partial ORDER BY (a permutation of the unordered query), an aggregate next to plain columns under LIMIT. aliases that shadow another selected source column; keys qualified by the table's own name; natively typed keys; nullable keys among several keys (two NULLs tie, the next key decides); phase 'reexec': a windowed Query executed over sequences of changing length; shape 'dual'. a quarter of the quick tables has up to 40 rows (sort.Slice is an insertion sort up to 12); shapes also cover ORDER BY of a UNION and keys named by their qualified source name. phase 'shapes': a (limit, offset) grid around the final and the source length over DISTINCT, all-aggregate, GROUP BY and UNION queries against the un-windowed sequence of the same query, and ORDER BY over native int64/uint64 keys beyond 2^53. Phase 'order': each case = random table (ties, NULL/missing single keys) x ORDER BY over 1..3 projected columns (plain or aliased, every direction mix) x optional WHERE x (limit, offset) drawn from {0,1,len-1,len,len+1,2len} in the three spellings; " +
+		Rule: "equal keys under different Go types within one column (the next key decides); zero-padded LIMIT / OFFSET literals. shapes also: DISTINCT * / UNION of whole rows under a partial ORDER BY (a permutation of the unordered query), an aggregate next to plain columns under LIMIT. aliases that shadow another selected source column; keys qualified by the table's own name; natively typed keys; nullable keys among several keys (two NULLs tie, the next key decides); phase 'reexec': a windowed Query executed over sequences of changing length; shape 'dual'. a quarter of the quick tables has up to 40 rows (sort.Slice is an insertion sort up to 12); shapes also cover ORDER BY of a UNION and keys named by their qualified source name. phase 'shapes': a (limit, offset) grid around the final and the source length over DISTINCT, all-aggregate, GROUP BY and UNION queries against the un-windowed sequence of the same query, and ORDER BY over native int64/uint64 keys beyond 2^53. Phase 'order': each case = random table (ties, NULL/missing single keys) x ORDER BY over 1..3 projected columns (plain or aliased, every direction mix) x optional WHERE x (limit, offset) drawn from {0,1,len-1,len,len+1,2len} in the three spellings; " +
 			"three real executions are compared: unordered U, ordered O, windowed W. Oracle: O is a permutation of U (rid multiset), every adjacent pair of O respects the key list lexicographically with its directions, NULL single keys come last in both directions; " +
 			"W has exactly max(0,min(n,len-m)) rows, its key-tuple sequence equals that of O[m:m+n], every row of W is a row of O (no padding, no phantom), and no error is returned; without ORDER BY, W equals U[m:m+n] row for row. " +
 			"Non-trivial = at least 3 rows with at least 2 distinct key tuples (ordering) or a window that cuts the sequence (LIMIT); distinct = distinct (table, SQL).",
